@@ -331,7 +331,7 @@ template <size_t L> struct X {
          A("assign(std::string) long", {{'n', n}}); MUT(true, fs.assign(big), r = big);
          A("append(std::string) long", {{'n', n}}); MUT(true, fs.append(big), r.append(big));
       }
-      A("sprintf(%d)", {}); MUT(true, fs.sprintf("%d", 12345), r = "12345");
+      A("sprintf(%c%c%d)", {}); MUT(true, fs.sprintf("%c%c%.0d", 'b', 'a', 0), r = "ba");     // a numeric conversion that prints nothing: content stays over {a,b}
       A("sprintf(empty)", {}); MUT(true, fs.sprintf("%s", ""), r = "");
       A("clear()", {}); MUT(true, fs.clear(), r.clear());
       for (char ch : {'a', 'b'}) {
@@ -770,17 +770,19 @@ static void on_segv(int sig) {
 }
 int main(int argc, char** argv) {
    // --opt prop=C10|C11 is passed as a plain pair of arguments after the standard ones
-   std::vector<char*> args; std::string prop = "C10";
+   std::vector<char*> args; std::string prop = "C10", caps;
    for (int i = 0; i < argc; ++i) {
-      if (std::string(argv[i]) == "--opt" && i + 1 < argc) { std::string o = argv[++i]; if (o.rfind("prop=", 0) == 0) prop = o.substr(5); }
+      if (std::string(argv[i]) == "--opt" && i + 1 < argc) { std::string o = argv[++i]; if (o.rfind("prop=", 0) == 0) prop = o.substr(5); if (o.rfind("caps=", 0) == 0) caps = "," + o.substr(5) + ","; }
       else args.push_back(argv[i]);
    }
    vf::init(int(args.size()), args.data());
    g_c11 = (prop == "C11");
    vf::fact("oracle", g_c11 ? "C11: std::string cut at capacity (in-domain tuples)" : "C10: memory safety and well-formedness (all tuples)");
    signal(SIGSEGV, on_segv); signal(SIGBUS, on_segv); std::set_terminate(on_terminate);
-   explore_cap_1(); explore_cap_2(); explore_cap_3();
-   if (vf::thorough()) { explore_cap_4(); explore_cap_5(); explore_cap_7(); explore_cap_255(); explore_cap_256(); }
+   auto on = [&](int c, bool deflt) { return caps.empty() ? deflt : caps.find("," + std::to_string(c) + ",") != std::string::npos; };
+   const bool th = vf::thorough();
+   if (on(1, true)) explore_cap_1(); if (on(2, true)) explore_cap_2(); if (on(3, true)) explore_cap_3();
+   if (on(4, th)) explore_cap_4(); if (on(5, th)) explore_cap_5(); if (on(7, th)) explore_cap_7(); if (on(255, th)) explore_cap_255(); if (on(256, th)) explore_cap_256();
    vf::finish();
    return 0;
 }
